@@ -835,18 +835,52 @@ def _range(ins, attrs, ctx):
 
 @op("Dropout")
 def _dropout(ins, attrs, ctx):
+    """inference: identity + all-true mask.  training (constant or symbolic flag): y = x * mask / (1 - ratio) where the
+    random mask is an uninterpreted Boolean function of the element position, ratio and seed attribute (the same
+    function on both sides of a comparison)."""
     x = ins[0]
+    k = x.kind
+    ratio_sv = ins[1] if len(ins) > 1 and ins[1] is not None else None
     training = ins[2] if len(ins) > 2 and ins[2] is not None else None
-    if training is not None:
-        if not training.is_concrete():
-            raise NotEncoded("Dropout symbolic training_mode")
-        if bool(training.item()):
-            ratio = ins[1] if len(ins) > 1 and ins[1] is not None else None
-            if ratio is None or not ratio.is_concrete() or ratio.item() != 0:
-                raise NotEncoded("Dropout in training mode (random)")
-    outs = [SV(x.arr.copy(), x.dtype, x.mag)]
+    if ctx.opset < 12 and (ratio_sv is not None or training is not None):
+        raise Bottom("Dropout inputs need opset 12")
+    identity = [SV(x.arr.copy(), x.dtype, x.mag)]
     if ctx.n_outputs > 1:
-        outs.append(SV(full(x.shape, True), DT.BOOL))
+        identity.append(SV(full(x.shape, True), DT.BOOL))
+    if training is None:
+        return identity
+    t = training.item()
+    if not is_sym(t) and not bool(t):
+        return identity
+    if ratio_sv is None:
+        ratio = Fraction(1, 2)
+    else:
+        if not ratio_sv.is_concrete():
+            raise NotEncoded("Dropout with symbolic ratio")
+        ratio = Fraction(ratio_sv.item())
+    if ratio == 0:
+        return identity
+    if ratio == 1:
+        raise NotEncoded("Dropout ratio 1")
+    if k != "f":
+        raise Bottom("Dropout on non-float")
+    scale = 1 / (1 - ratio)
+    seed = attrs.get("seed", "noseed")
+    tag = f"dropout_mask_seed{seed}_r{str(float(ratio)).replace('.', 'p')}"
+    out = np.empty(x.shape, dtype=object)
+    mask = np.empty(x.shape, dtype=object)
+    for n_, idx in enumerate(np.ndindex(*x.shape)):
+        mk = _uf(ctx, tag, n_, out="b")
+        dropped = e_ite(mk, e_mul(x.arr[idx], scale, k), zero(k), k)
+        if is_sym(t):
+            out[idx] = e_ite(t, dropped, x.arr[idx], k)
+            mask[idx] = z3.If(t, mk, z3.BoolVal(True))
+        else:
+            out[idx] = dropped
+            mask[idx] = mk
+    outs = [SV(out, x.dtype)]
+    if ctx.n_outputs > 1:
+        outs.append(SV(mask, DT.BOOL))
     return outs
 
 
